@@ -307,7 +307,7 @@ func unitC11scripted(e common.Env, p *common.Part) {
 		// a second Sign on a topic that is still live at the node is refused; the refusal must not wedge the first call (it returns at
 		// its deadline) nor any later call on that node
 		for mi, mode := range []string{"loud", "barrier", "silent"} {
-			for _, dupTopic := range []string{"same topic", "the key generation's topic name while a key generation runs"} {
+			for _, dupTopic := range []string{"same topic", "the key generation's topic name while a key generation runs", "two further KeyGen calls while a key generation runs"} {
 				cs := fmt.Sprintf("%s: refused duplicate (%s), then the first call's deadline, then further calls", mode, dupTopic)
 				p.Begin(cs)
 				ids := []uint16{1, 2, 3}
@@ -335,16 +335,37 @@ func unitC11scripted(e common.Env, p *common.Part) {
 					rets <- ret{"the first call", err}
 				}()
 				time.Sleep(60 * time.Millisecond)
-				go func() {
-					c2, cn := context.WithTimeout(context.Background(), 100*time.Millisecond)
-					defer cn()
-					t := "dup-topic"
-					if dupTopic != "same topic" {
-						t = tss.DkgTopicName
-					}
-					_, err := c.Schemes[1].Sign(c2, []byte("digest-0123456789abcdef0123456789"), t)
-					rets <- ret{"the duplicate call", err}
-				}()
+				if strings.HasPrefix(dupTopic, "two further KeyGen") {
+					// the second KeyGen is refused; the third one, issued right after the refusal while the first still runs, as well
+					go func() {
+						for k, name := range []string{"the duplicate call", "a third call"} {
+							var err error
+							func() {
+								defer func() {
+									if x := recover(); x != nil {
+										p.Violate("panic/after-refused-duplicate", fmt.Sprintf("%s: KeyGen call #%d issued while the first key generation was still running panicked: %v", cs, k+2, x), nil)
+										err = fmt.Errorf("panic")
+									}
+								}()
+								c2, cn := context.WithTimeout(context.Background(), 60*time.Millisecond)
+								defer cn()
+								_, err = c.Schemes[1].KeyGen(c2, 3, 2)
+							}()
+							rets <- ret{name, err}
+						}
+					}()
+				} else {
+					go func() {
+						c2, cn := context.WithTimeout(context.Background(), 100*time.Millisecond)
+						defer cn()
+						t := "dup-topic"
+						if dupTopic != "same topic" {
+							t = tss.DkgTopicName
+						}
+						_, err := c.Schemes[1].Sign(c2, []byte("digest-0123456789abcdef0123456789"), t)
+						rets <- ret{"the duplicate call", err}
+					}()
+				}
 				got := map[string]error{}
 				wait := func(n int, d time.Duration) bool {
 					deadline := time.After(d)
@@ -358,7 +379,11 @@ func unitC11scripted(e common.Env, p *common.Part) {
 					}
 					return true
 				}
-				ok := wait(2, 10*time.Second)
+				nFirst := 2
+				if strings.HasPrefix(dupTopic, "two further KeyGen") {
+					nFirst = 3
+				}
+				ok := wait(nFirst, 10*time.Second)
 				if ok {
 					// later calls on the same node
 					go func() {
@@ -373,7 +398,7 @@ func unitC11scripted(e common.Env, p *common.Part) {
 						_, err := c.Schemes[1].KeyGen(c4, 3, 2)
 						rets <- ret{"a later KeyGen", err}
 					}()
-					ok = wait(4, 10*time.Second)
+					ok = wait(nFirst+2, 10*time.Second)
 				}
 				cancelFirst()
 				if !ok {
